@@ -274,7 +274,12 @@ class _P:
                 self.crlf()
                 return code, code_arg, text
             self.sp()
+        at = self.i
         text = self.text_to_crlf()
+        if not text:
+            # text = 1*TEXT-CHAR
+            self.i = at
+            self.fail('empty response text')
         return code, code_arg, text
 
     def code_arg(self, code: bytes):
